@@ -1030,7 +1030,9 @@ func (args LazyArgumentMap) Path(p string, source, dest syntax.Type,
 	}
 }
 
-// jsonPath works like Path except it doesn't use type information.
+// jsonPath works like Path except it doesn't use type information.  An
+// object which does not have the next key in the path is taken to be a
+// typed map.
 func (m LazyArgumentMap) jsonPath(p string) json.Marshaler {
 	if p == "" {
 		return m
@@ -1056,7 +1058,24 @@ func jsonPath(msg json.RawMessage, p string) json.Marshaler {
 		if json.Unmarshal(msg, &m) != nil {
 			return msg
 		}
-		return m.jsonPath(p)
+		key := p
+		if i := strings.IndexRune(p, '.'); i >= 0 {
+			key = p[:i]
+		}
+		if _, ok := m[key]; ok {
+			return m.jsonPath(p)
+		}
+		// Valid json for a struct has a key for every member, so this
+		// must be a typed map.  Project through its values, like Path does.
+		result := make(LazyArgumentMap, len(m))
+		for k, v := range m {
+			if b, err := json.Marshal(jsonPath(v, p)); err != nil {
+				result[k] = v
+			} else {
+				result[k] = b
+			}
+		}
+		return result
 	case '[':
 		var arr []json.RawMessage
 		if json.Unmarshal(msg, &arr) != nil {
